@@ -7,8 +7,8 @@ ENGINES = [
      "kind_free_text": "callback installed at the guarded schedule points: recorder, seeded delay plans, gate scripts forcing worker command orders"},
     {"name": "valgrind-memcheck", "path": "engines.py", "serves_properties": ["C18"],
      "kind_free_text": "PYTHONMALLOC=malloc valgrind over python3 + similari.so on a slice of the C18 scripts; only report blocks with a similari frame count (thorough tier)"},
-    {"name": "tsan", "path": "engines.py", "serves_properties": ["C06", "C10"],
-     "kind_free_text": "-Zsanitizer=thread -Zbuild-std build of the C06 / C10 monitor binaries (thorough tier)"},
+    {"name": "tsan", "path": "engines.py", "serves_properties": ["C05", "C06", "C09", "C10"],
+     "kind_free_text": "-Zsanitizer=thread -Zbuild-std build of the C05 / C06 / C09 / C10 monitor binaries (thorough tier)"},
     {"name": "miri", "path": "engines.py", "serves_properties": ["C05", "C06", "C09", "C10", "C16"],
      "kind_free_text": "cargo +nightly miri run of the same monitor binaries in --small mode over many scheduler seeds: UB/data-race detector and independent schedule explorer (thorough tier)"},
 ]
